@@ -379,3 +379,44 @@ def overload_siblings(facts):
                 diff = [(x, y) for x, y in zip(a + ia, b + ib) if x != y][:1] or [("(%d steps)" % len(a + ia), "(%d steps)" % len(b + ib))]
                 out.append(ob("bloom.siblings", key, d[name]["pat"], "violated", "%s(%s) prepares its argument differently from update(%s): `%s` vs `%s`: an inserted item is hashed to different bytes when queried" % (name, ",".join(sig), ",".join(sig), diff[0][1][:120], diff[0][0][:120]), d[name]["qname"]))
     return out
+
+
+def extent_units(facts):
+    """the bit array holds capacity_bits_ bits = capacity_bits_ >> 3 bytes: every length that travels with the array pointer (fill,
+    copy, count, bitwise combine, write, allocate / deallocate) is exactly that byte count.  A count in another unit (>> 6 = longs)
+    clears, copies or counts only part of the array."""
+    from astu import single_assignment_locals
+    fns, bf = bloom_fns(facts)
+    out = []
+    n_sites = 0
+    WANT = "(capacity_bits_>>3)"
+    for pat, fn in sorted(bf.items()):
+        if fn.get("body") is None:
+            continue
+        sa = single_assignment_locals(fn)
+        idx = [0]
+
+        def v(n):
+            nonlocal n_sites
+            if n.get("k") != "Call" or n.get("cname") not in ("fill", "fill_n", "copy_n", "memcpy", "memset", "write", "copy_to_mem", "union_with", "intersect", "invert", "count_num_bits_set", "deallocate"):
+                return
+            args = n.get("args", [])
+            ts = [txt(a, sa).replace(" ", "") for a in args]
+            ptrs = [i for i, t in enumerate(ts) if t in ("bit_array_", "other.bit_array_")]
+            if not ptrs:
+                return
+            # the length argument: the integer-typed argument(s)
+            lens = [t for a, t in zip(args, ts) if (strip(a).get("t") or "").replace("const ", "") in ("unsigned long", "unsigned int", "long", "int", "unsigned long long") and t not in ("0",)]
+            key = "bloom_filter_alloc::%s:%s#%d" % (fn["name"], n["cname"], idx[0])
+            idx[0] += 1
+            n_sites += 1
+            if lens and all(t == WANT for t in lens):
+                out.append(ob("bloom.extent", key, n.get("loc", fn["pat"]), "discharged", "%s over capacity_bits_ >> 3 bytes" % n["cname"], fn["qname"]))
+            elif not lens:
+                out.append(ob("bloom.extent", key, n.get("loc", fn["pat"]), "unrecognised", "no length argument recognised in `%s`" % txt(n)[:80], fn["qname"]))
+            else:
+                out.append(ob("bloom.extent", key, n.get("loc", fn["pat"]), "violated", "`%s` covers %s of the bit array, not its capacity_bits_ >> 3 bytes: the rest of the array is left as it was (stale bits reappear after reset / are not counted / not combined)" % (txt(n)[:90], lens), fn["qname"]))
+        walk(fn["body"], v)
+    if n_sites < 8:
+        out.append(ob("bloom.extent", "anchor", "", "unrecognised", "only %d bit-array extents found" % n_sites, ""))
+    return out
